@@ -88,7 +88,7 @@ BUDGETS = budgets()
 
 def bounds(tier):
     return {"cases": len(BUDGETS), "histories": ["tally up --migrate --summary", "tally init", "run_migrations(config, skip_confirm=True)"],
-            "faults_per_effect": "crash after k; crash with torn half / nothing when k lands data; OSError instead of k"}
+            "faults_per_effect": "crash after k; crash with torn half / nothing when k lands data; OSError instead of k; for a shutil.move step additionally the whole move failing (rename and copy fallback)"}
 
 
 def gen_cases(tier):
@@ -237,6 +237,9 @@ def plans_for(log):
             plans.append({"crash_after": k, "tear": "half"})
             plans.append({"crash_after": k, "tear": "none"})
         plans.append({"oserror_at": k})
+        if e["kind"] == "rename" and e.get("in_move"):
+            # the "move" step as a whole fails (shutil.move's copy fallback fails too), not only its rename system call
+            plans.append({"oserror_at": k, "whole_move": True})
     return plans
 
 
